@@ -750,6 +750,8 @@ func (w *world) setup() {
 			return err
 		}})
 
+	w.add(w.rangesTarget())
+
 	// --- 12. settings state from a hostile snapshot-flagged change ---------------------------
 	w.add(&target{name: "settings.state", factor: 4096, slack: 8 << 20, nested: true,
 		seeds: [][]byte{
@@ -758,6 +760,17 @@ func (w *world) setup() {
 			{},
 		},
 		run: w.settingsRun,
+		model: func(in []byte, err error) (string, string) {
+			sd := &spacesyncproto.SettingsData{}
+			if sd.UnmarshalVT(in) != nil {
+				return "", ""
+			}
+			p := "0"
+			if sd.Snapshot != nil {
+				p = "1"
+			}
+			return "snapshot " + p, cls(err)
+		},
 		sig: func(in []byte, what string) string {
 			sd := &spacesyncproto.SettingsData{}
 			if sd.UnmarshalVT(in) == nil && sd.Snapshot == nil && strings.Contains(what, "nil pointer") {
@@ -765,6 +778,33 @@ func (w *world) setup() {
 			}
 			return ""
 		}})
+}
+
+// rangesTarget: the wrapping uint64 arithmetic of genTupleRanges, input = from ‖ to ‖ df
+func (w *world) rangesTarget() *target {
+	var last string
+	return &target{name: "ldiff.ranges", factor: 64, slack: 1 << 16,
+		seeds: [][]byte{append(append(binary.LittleEndian.AppendUint64(nil, 0), 0xff, 0xff, 0xff, 0xff, 0xff, 0xff, 0xff, 0xff), 4)},
+		run: func(in []byte) error {
+			last = ""
+			if len(in) < 17 {
+				return errors.New("harness: short")
+			}
+			df := int(in[16]%16) + 1
+			res := ldiff.VerifBytesGenTupleRanges(binary.LittleEndian.Uint64(in), binary.LittleEndian.Uint64(in[8:]), df)
+			parts := make([]string, len(res))
+			for i, t := range res {
+				parts[i] = fmt.Sprintf("%d:%d", t[0], t[1])
+			}
+			last = strings.Join(parts, ",")
+			return nil
+		},
+		model: func(in []byte, err error) (string, string) {
+			if len(in) < 17 {
+				return "", ""
+			}
+			return fmt.Sprintf("ranges %d %d %d", binary.LittleEndian.Uint64(in), binary.LittleEndian.Uint64(in[8:]), int(in[16]%16)+1), last
+		}}
 }
 
 func (w *world) add(t *target) { w.targets = append(w.targets, t) }
